@@ -152,7 +152,7 @@ def observe(model, probes, seed=1234, samples=True):
         cols = getattr(model, 'columns', None)
         frame = pd.DataFrame(rows, columns=cols) if cols is not None and len(cols) == rows.shape[1] else rows
         obs['pdf'] = _try(model.pdf, frame)
-        obs['cdf'] = _try(lambda: np.round(np.atleast_1d(model.cdf(frame.iloc[:3] if hasattr(frame, 'iloc') else frame[:3])), 3))
+        # the CDF is not observed here: scipy's MVN integrator is randomised for d >= 3 (C13 checks it with a tolerance)
         obs['correlation'] = _try(lambda: model.correlation)
     elif k == 'vine':
         u = np.asarray(probes['u'], dtype=float)[None, :]
